@@ -208,8 +208,7 @@ package protobuf
 //@   modifies *
 //@   ensures fromErr == nil && toErr == nil ==> y != nil && allocRT(*y, x)
 
-// Signature lists of signed states. The conversion of the parameters is not part of this lemma (a thin trusted frame: it builds
-// new values and does not touch the signature lists).
+// Signature lists of signed states.
 // Parameters. The participants' address maps are converted by map-ranging loops that are not under functional contracts
 // (FromWalletAddrs: thin trusted frame; the key of an entry is the subject of verifPBWalletAddrKey); everything else is.
 //@ func FromWalletAddrs
@@ -234,6 +233,7 @@ package protobuf
 //@ pred pbSigSame(y []byte, x []byte) = (x == nil ==> y == nil) && (x != nil ==> len(y) == len(x) && forall j int :: 0 <= j && j < len(x) ==> y[j] == x[j])
 //@ func verifPBSignedStateSigs
 //@   requires x != nil && x.State != nil && x.State.App != nil && x.State.Data != nil && nonNilAssets(x.State.Assets)
+//@   requires x.Params != nil && x.Params.Nonce != nil && val(x.Params.Nonce) >= 0 && x.Params.App != nil
 //@   requires forall i int :: 0 <= i && i < len(x.State.Backends) ==> 0 <= x.State.Backends[i] && x.State.Backends[i] <= 4294967295
 //@   modifies *
 //@   inlines FromSignedState, ToSignedState
